@@ -22,6 +22,35 @@ if "--skip-pinned" not in sys.argv:
     res["pinned_55_pass"] = "pinned tests passed: 55 of 55" in p.stdout
     print(p.stdout[-300:])
     shutil.rmtree(os.path.join(clone, "_pinned_build"), ignore_errors=True)
+# optional demonstration: meta.json may hold "demo_cmd" with {clone}, {bin} and {dir} placeholders; it is run on the changed
+# tree (expected to fail) and, after `git stash`, on the unchanged tree (expected to pass)
+meta = {}
+if os.path.exists(os.path.join(sdir, "meta.json")):
+    meta = json.load(open(os.path.join(sdir, "meta.json")))
+if meta.get("demo_cmd") and "--skip-demo" not in sys.argv:
+    def build_b():
+        b = os.path.join(clone, "_b")
+        if not os.path.exists(os.path.join(b, "build.ninja")):
+            subprocess.run(["cmake", "-G", "Ninja", "-S", clone, "-B", b, "-DCMAKE_BUILD_TYPE=RelWithDebInfo",
+                            "-DCMAKE_CXX_FLAGS_RELWITHDEBINFO=-O2 -g -DCMACIONIZE_VERIF -Wno-error -Wno-cpp", "-DCMAKE_EXPORT_COMPILE_COMMANDS=ON"],
+                           capture_output=True)
+        return subprocess.run(["ninja", "-C", b, "-j12", "CMacIonize"], capture_output=True, text=True).returncode
+    def demo():
+        rc = build_b()
+        if rc != 0:
+            return {"build_rc": rc}
+        cmd = meta["demo_cmd"].format(clone=clone, bin=os.path.join(clone, "_b", "rundir", "CMacIonize"), dir=sdir)
+        try:
+            p = subprocess.run(cmd, shell=True, capture_output=True, text=True, timeout=int(meta.get("demo_timeout", 1800)), cwd=sdir)
+            return {"exit": p.returncode, "tail": (p.stdout + p.stderr)[-600:]}
+        except subprocess.TimeoutExpired:
+            return {"exit": "timeout"}
+    res["demo_with_change"] = demo()
+    subprocess.check_call(["git", "-C", clone, "stash", "-q"])
+    res["demo_without_change"] = demo()
+    subprocess.check_call(["git", "-C", clone, "stash", "pop", "-q"])
+    shutil.rmtree(os.path.join(clone, "_b"), ignore_errors=True)
+    print("demo with change:", res["demo_with_change"].get("exit"), "| without:", res["demo_without_change"].get("exit"))
 env = dict(os.environ, CMI_REPO=clone, CMI_EVIDENCE_DIR="/scratch/mut-evidence", CMI_RUN_ROOT="/scratch/mut-run")
 res["checks"] = {}
 for prop in props:
